@@ -165,10 +165,15 @@ def gen_device(rnd, size="small", n_terminals=None, n_probes=None, n_holes=None,
         mesh["max_edge_length"] = rnd.choice([1.0, 1.5])
     if size == "large":
         mesh["max_edge_length"] = rnd.choice([0.6, 0.7])  # 500..1200 sites
+    layer = gen_layer(rnd, lu, gamma=gamma, screening=screening)
+    # the height of the film: three devices in eight do not lie in the plane z = 0 (derived from the
+    # jittered film size, so that no other draw of the scenario moves)
+    zsel = int(round((film.get("w") or film.get("a")) * 1e5)) % 8
+    layer["z0"] = r3({0: 0.75, 1: -0.4, 2: 2.0}.get(zsel, 0.0) * layer["xi"])
     return {
         "name": "dev",
         "length_units": lu,
-        "layer": gen_layer(rnd, lu, gamma=gamma, screening=screening),
+        "layer": layer,
         "film": film,
         "holes": holes,
         "terminals": gen_terminals(rnd, film, n_terminals, overlap=overlap),
@@ -439,6 +444,7 @@ def maybe_moved(rnd, scn, p=0.1):
     """With probability p the meshed Device is translated in place (by a few coherence lengths) before use."""
     if rnd.random() < p:
         scn["device_moved"] = {"dx": rnd.choice([0.0, 0.7, -1.3, 2.5]), "dy": rnd.choice([0.4, -0.9, 1.7])}
+        scn["device_moved"]["dz"] = {2.5: 0.5, -1.3: -0.25}.get(scn["device_moved"]["dx"], 0.0)
     return scn
 
 
@@ -548,6 +554,6 @@ def in_metres(scn):
     lu0 = scn["device"]["length_units"]
     f = LEN_FACTOR["m"] / LEN_FACTOR[lu0]
     scn["device"]["length_units"] = "m"
-    for k in ("xi", "lam", "d"):
-        scn["device"]["layer"][k] = float(f"{scn['device']['layer'][k] * f:.6g}")
+    for k in ("xi", "lam", "d", "z0"):
+        scn["device"]["layer"][k] = float(f"{scn['device']['layer'].get(k, 0.0) * f:.6g}")
     return scn
